@@ -848,6 +848,10 @@ class _Unjellier:
             raise InsecureJelly("Module not allowed: %s" % modName)
         # XXX do I need an isFunctionAllowed?
         function = namedAny(fname)
+        if isinstance(function, (type, types.ModuleType)):
+            raise InsecureJelly(
+                "function %r unjellied to a class or module: %r" % (fname, function)
+            )
         return function
 
     def _unjelly_persistent(self, rest):
@@ -876,6 +880,10 @@ class _Unjellier:
         )
 
         clz = self.unjelly(rest[0])
+        if type(clz) is not type:
+            raise InsecureJelly("Instance found with non-class class.")
+        if not self.taster.isClassAllowed(clz):
+            raise InsecureJelly("Class %s not allowed." % qual(clz))
         return self._genericUnjelly(clz, rest[1])
 
     def _unjelly_unpersistable(self, rest):
